@@ -161,10 +161,10 @@ def check_unit(ctx, d, name, text, lang, stmts=None, szt=(), nums=(), witness_ke
         if cps != [g]:
             what = ('%s statement: %s\n  expected (generator == clang): %s\n  cppcheck --dump (%d tree(s) on the line):\n%s'
                     % (lang, stxt, g, len(cps), '\n'.join('    ' + c for c in cps) or '    (no tree)'))
-            ctx.violation(key, what, files={name: text},
+            exprcmp.report(ctx, key, what, files={name: text},
                           cmd='cppcheck --dump -q --language=%s %s   # line %d' % (lang, name, line))
         elif le:
-            ctx.violation(key + ':links', '%s statement: %s\n  AST links inconsistent: %s' % (lang, stxt, '; '.join(le[:4])),
+            exprcmp.report(ctx, key + ':links', '%s statement: %s\n  AST links inconsistent: %s' % (lang, stxt, '; '.join(le[:4])),
                           files={name: text}, cmd='cppcheck --dump -q --language=%s %s   # line %d' % (lang, name, line))
     return asserted
 
